@@ -9,7 +9,8 @@ import (
 // capability represents a known-safe attribute access after a `has` guard.
 type capability struct {
 	varName types.String // variable or expression identity
-	attr    types.String // attribute name
+	attr    types.String // attribute name, or tag key when tag is set
+	tag     bool         // capability established by hasTag (separate namespace from attributes)
 }
 
 // capabilitySet tracks which attributes are safe to access.
